@@ -6,7 +6,15 @@ From Coq Require Import Strings.Byte.
 From Verif Require Import Base.Bytes Time.Calendar Time.Iso8601 Time.Render Spec.Grammar.
 From Verif Require Import Proofs.CalendarProofs.
 From Verif Require Import Time.Calendar.
-From Verif Require Import Proofs.IsoProofs Proofs.CalendarProofs.
+From Coq Require Import List Bool NArith ZArith Lia.
+From Coq Require Import Sorting.Permutation Sorting.Sorted.
+From Verif Require Import Base.Bytes Base.Hex Base.Utf8 Crypto.Hmac Time.Calendar Time.Iso8601 Time.Render.
+From Verif Require Import Generated.SrcConsts Model.Errors Model.Uri Model.Query Model.Headers Model.Labels Model.Requirements Model.Validate.
+From Verif Require Import Spec.PathSpec Spec.QuerySpec Spec.Signer Spec.RequestSpec.
+From Verif Require Import Proofs.PathProofs Proofs.QueryProofs Proofs.HeaderProofs Proofs.KeyProofs.
+From Verif Require Import Base.Bytes Base.Hex Crypto.Hmac Time.Calendar Time.Iso8601 Time.Render.
+From Verif Require Import Generated.SrcConsts Model.Errors Model.Requirements Model.Validate.
+From Verif Require Import Proofs.IsoProofs Proofs.CalendarProofs Proofs.SoundnessProofs Proofs.AuthProofs.
 Local Open Scope Z_scope.
 
 Theorem C16_iso_regex_sound :
@@ -120,3 +128,34 @@ Theorem C16_no_month_13 :
   forall y d, valid_date y 13 d = false.
 Proof. exact CalendarProofs.no_month_13. Qed.
 Print Assumptions C16_no_month_13.
+
+Theorem C01_accept_implies_signature :
+  forall (H : bytes -> bytes), forall rq cf pv calls p b pr se,
+    validate H rq cf pv = (calls, Accepted p b pr se) ->
+    has_plus (rq_path rq) = false ->
+    exists ap ts g key sts,
+      calls = [g] /\
+      g = expected_gsk cf ap ts /\
+      pv_ready pv = None /\
+      pv_answer pv g = AnsOk key pr se /\
+      presented_params H rq cf = Some ap /\
+      parse_iso8601 (ap_timestamp ap) = Some ts /\
+      spec_request_sts H rq cf ap ts = Some sts /\
+      ap_signature ap = lower_hex (hmac H key sts).
+Proof. exact SoundnessProofs.C01_accept_implies_signature. Qed.
+Print Assumptions C01_accept_implies_signature.
+
+Theorem C03_scope_date_is_utc_date :
+  forall ts,
+    yyyymmdd ts = yyyymmdd_of_civil (civil_of_days (day_of_instant ts)).
+Proof. exact AuthProofs.C03_scope_date_is_utc_date. Qed.
+Print Assumptions C03_scope_date_is_utc_date.
+
+Theorem C04_textual_independence_decision :
+  forall (H : bytes -> bytes), forall cr1 cr2 ap1 ap2 au1 au2 t now,
+    parse_iso8601 (ap_timestamp ap1) = Some t -> parse_iso8601 (ap_timestamp ap2) = Some t ->
+    (authenticator_from_params H) cr1 ap1 = Ok au1 -> (authenticator_from_params H) cr2 ap2 = Ok au2 ->
+    freshness_stage (au_timestamp au1) now = freshness_stage (au_timestamp au2) now /\
+    (fresh (au_timestamp au1) now <-> fresh (au_timestamp au2) now).
+Proof. exact AuthProofs.C04_textual_independence_decision. Qed.
+Print Assumptions C04_textual_independence_decision.
